@@ -30,10 +30,10 @@ import (
 
 type ReqSpec struct {
 	Method  string `json:"m"`
-	Abs     bool   `json:"abs"`          // absolute-form target (else origin-form + Host)
-	Proto   string `json:"p"`            // "1.1", "1.0" (implicit close), "1.0ka" (HTTP/1.0 + Connection: keep-alive)
-	HSet    int    `json:"h"`            // request header pool entry
-	Framing string `json:"f"`            // none | cl0 | cl | ch1 ([n]) | ch2 ([1,n-1]) | chN ([1]*n) | chT ([n] + trailer)
+	Abs     bool   `json:"abs"` // absolute-form target (else origin-form + Host)
+	Proto   string `json:"p"`   // "1.1", "1.0" (implicit close), "1.0ka" (HTTP/1.0 + Connection: keep-alive)
+	HSet    int    `json:"h"`   // request header pool entry
+	Framing string `json:"f"`   // none | cl0 | cl | ch1 ([n]) | ch2 ([1,n-1]) | chN ([1]*n) | chT ([n] + trailer)
 	Size    int    `json:"n"`
 	Seg     string `json:"seg"`          // one | split | lines | bytes
 	Close   bool   `json:"cl,omitempty"` // Connection: close
@@ -669,12 +669,12 @@ type finding struct {
 }
 
 type runOut struct {
-	reached   map[string]bool
-	quiet     time.Duration
-	findings  []finding
-	outcome   []string // canonical per-exchange outcome (for mem/tcp comparison and distinct outcome counting)
-	exchanges int
-	originReq int
+	reached                          map[string]bool
+	quiet                            time.Duration
+	findings                         []finding
+	outcome                          []string // canonical per-exchange outcome (for mem/tcp comparison and distinct outcome counting)
+	exchanges                        int
+	originReq                        int
 	trailersRelayed, trailersDropped int
 	http10Chunked                    int
 	cl304Dropped                     int
@@ -1354,6 +1354,9 @@ func main() {
 		"framing headers (Content-Length, Transfer-Encoding) and RFC 7230 6.1 hop-by-hop headers are not compared; bodies are compared after de-framing; header names are compared case-insensitively; headers added by the proxy/transport are allowed; request trailers may be dropped (RFC 9112 7.1.2) and are only counted",
 		"a stalled exchange is recognised structurally (proxy and client both blocked in Read on the same connection with nothing in flight), confirmed over 3 polls; the hang deadline is 20 s",
 		"goroutine schedules inside net/http's Transport are not enumerated (free-running)",
+	}
+	if rep.Incomplete != "" {
+		fmt.Fprintln(os.Stderr, "INCOMPLETE:", rep.Incomplete)
 	}
 	rep.Finish()
 }
